@@ -1,0 +1,42 @@
+//go:build verif
+
+// Contracts for the funding / allotment layer, read by /verif/govc.
+// This file contains comments only; it is compiled only with -tags verif.
+
+package machine
+
+//@ fold total(s []FundingPart) int = sum x :: val(x.Amount)
+//@ fold sumFor(s []FundingPart, a AccountAddress) int = sum x :: ite(x.Account == a, val(x.Amount), 0)
+//@ fold allNonNeg(s []FundingPart) bool = all x :: x.Amount != nil && val(x.Amount) >= 0
+//@ assume Zero != nil && val(Zero) == 0
+
+//@ func (machine.Funding).Take
+//@   requires amount != nil && allNonNeg(f.Parts)
+//@   ensures err != nil <==> (val(amount) < 0 || val(amount) > total(f.Parts))
+//@   ensures err == nil ==> total(ret0.Parts) == val(amount)
+//@   ensures err == nil ==> allNonNeg(ret0.Parts) && allNonNeg(ret1.Parts)
+//@   ensures err == nil ==> ret0.Asset == f.Asset && ret1.Asset == f.Asset
+//@   ensures err == nil ==> forall a AccountAddress :: sumFor(ret0.Parts, a) + sumFor(ret1.Parts, a) == sumFor(f.Parts, a)
+//@   loop 1 invariant 0 <= i && i <= len(f.Parts)
+//@   loop 1 invariant remainingToWithdraw != nil && val(remainingToWithdraw) == val(amount) - total(result.Parts)
+//@   loop 1 invariant val(amount) >= 0 ==> val(remainingToWithdraw) >= 0
+//@   loop 1 invariant total(result.Parts) + total(remainder.Parts) == total(f.Parts[:i])
+//@   loop 1 invariant forall a AccountAddress :: sumFor(result.Parts, a) + sumFor(remainder.Parts, a) == sumFor(f.Parts[:i], a)
+//@   loop 1 invariant allNonNeg(result.Parts) && allNonNeg(remainder.Parts)
+//@   loop 1 invariant result.Asset == f.Asset && remainder.Asset == f.Asset
+//@   loop 1 invariant total(result.Parts) >= 0 && total(remainder.Parts) >= 0
+//@   loop 1 invariant val(remainingToWithdraw) > 0 ==> total(remainder.Parts) == 0
+//@   loop 1 decreases len(f.Parts) - i
+//@   loop 2 invariant 0 <= i && i <= len(f.Parts)
+//@   loop 2 invariant total(result.Parts) + total(remainder.Parts) == total(f.Parts[:i])
+//@   loop 2 invariant forall a AccountAddress :: sumFor(result.Parts, a) + sumFor(remainder.Parts, a) == sumFor(f.Parts[:i], a)
+//@   loop 2 invariant allNonNeg(result.Parts) && allNonNeg(remainder.Parts)
+//@   loop 2 invariant result.Asset == f.Asset && remainder.Asset == f.Asset
+//@   loop 2 invariant remainingToWithdraw != nil && val(remainingToWithdraw) == val(amount) - total(result.Parts)
+//@   loop 2 invariant val(amount) >= 0 ==> val(remainingToWithdraw) >= 0
+//@   loop 2 invariant i < len(f.Parts) ==> val(remainingToWithdraw) <= 0
+//@   loop 2 invariant total(result.Parts) >= 0 && total(remainder.Parts) >= 0
+//@   loop 2 invariant val(remainingToWithdraw) > 0 ==> total(remainder.Parts) == 0
+//@   loop 2 decreases len(f.Parts) - i
+//@   nopanic
+//@   property C01 C03
